@@ -50,7 +50,7 @@ func main() {
 		cmdSelftest(os.Args[2:])
 	case "build":
 		for _, e := range []string{"world", "sess", "conc"} {
-			if _, err := os.Stat(filepath.Join(root, e)); err == nil {
+			if m, _ := filepath.Glob(filepath.Join(root, e, "*.go")); len(m) > 0 {
 				buildEngine(e, false)
 			}
 		}
